@@ -18,9 +18,10 @@ ASSUMPTIONS = [
     "tzinfos callables are pure functions of (name, offset)",
     "UnknownTimezoneWarning is observed through warnings.catch_warnings(record=True)",
     "default= is a datetime.datetime, naive (10 values) or AWARE (4 values, ~10 % of the calls): the wall-time clauses are checked "
-    "on the default's wall time; where no zone is applied the result keeps the default's tzinfo (the model's .naive / .naiveWarn mean "
-    "'default.replace(...) as it is'), which for ignoretz=True and for an unknown abbreviation contradicts the property text: known "
-    "finding D-C15-aware-default-kept.  default=datetime.date(...) is outside the documented type ('the default datetime object'): "
+    "on the default's wall time; the zone clauses on the Lean finalTz (parser.finaltz op): a text without zone information keeps the "
+    "default's tzinfo object, ignoretz=True / an unknown abbreviation / a tzinfos entry None give tzinfo None for EVERY default "
+    "(D-C15-aware-default-kept is repaired; the stream stays as a regression stream).  default=datetime.date(...) is outside the "
+    "documented type ('the default datetime object'): "
     "observed each run (TypeError when the text names a time field, a date object otherwise), reported in the histograms, not judged",
     "a tzinfos value that is a MALFORMED TZ string (or a callable raising ValueError) is not 'a TZ string' in the sense of this "
     "property: such calls are generated, must raise ParserError exactly when the Lean model (C08's tz.tzstr model inside the parser "
@@ -28,7 +29,9 @@ ASSUMPTIONS = [
     "a failing oracle case is KNOWN only if the implementation's answer equals the Lean model's answer on it and the observed "
     "result is exactly the listed symptom; anything else inside a known class is a VIOLATION",
 ]
-RULE = ("partial texts built from a KNOWN set of fields (20 shapes: time only, month only, month+year, weekday only, weekday+time, "
+RULE_SENTENCES = ("sentence stream: 17 templates x boundary datetimes x 0-5 filler words in front x 0-4 behind (words accepted by the Lean "
+                  "predicate PM.fillerWord), 10 defaults; ")
+RULE = RULE_SENTENCES + ("partial texts built from a KNOWN set of fields (20 shapes: time only, month only, month+year, weekday only, weekday+time, "
         "weekday+month, h/m/s units, MM/DD, day only, full date ...) x 10 defaults incl. day 29/30/31, Feb 29, 0001-01-01, "
         "9999-12-31 x 38 zone texts x 12 tzinfos forms x 9 TZ settings x fuzzy fillers; distinct = distinct (text, options, TZ); "
         "non-trivial = a datetime was returned and compared with the specification")
@@ -105,19 +108,23 @@ ZONES = [
 
 
 def tzcascade_requests(ctx, items):
-    """expected zone descriptors from the Lean cascade for (tzspec, name, off, naive datetime) under the current TZ"""
+    """expected zone descriptors from the Lean cascade (`finalTz`: ignoretz, then buildTzaware) for
+    (tzspec, name, off, naive datetime, ignoretz) under the current TZ; `dflt` = the tzinfo of default= is kept"""
     import time
     from dateutil import tz
     tzn = ";".join(L.cps(n) for n in time.tzname)
-    first = ctx.driver(["parser.tzcascade %s %s %s %s" % (tzn, spec.wire(), L.optname(name), ("-" if off is None else str(off))) for spec, name, off, _ in items])
+    first = ctx.driver(["parser.finaltz %d %s %s %s %s" % (int(ig), tzn, spec.wire(), L.optname(name), ("-" if off is None else str(off)))
+                        for spec, name, off, _, ig in items])
     out = list(first)
     second, where = [], []
-    for i, ((spec, name, off, naive), r) in enumerate(zip(items, first)):
+    for i, ((spec, name, off, naive, _ig), r) in enumerate(zip(items, first)):
         if r.startswith("ok local "):
             z = tz.tzlocal()
+            nm_, tzoff = r[9:].split(" ")
             try:
-                second.append("parser.localfinal %s %s %s" % (L.optname(naive.replace(tzinfo=z).tzname()),
-                                                             L.optname(naive.replace(tzinfo=z, fold=1).tzname()), r[9:]))
+                a0, a1 = naive.replace(tzinfo=z), naive.replace(tzinfo=z, fold=1)
+                second.append("parser.localfinal %s %s %s %s %s %s" % (L.optname(a0.tzname()), L.optname(a1.tzname()),
+                                                                      L._secs(a0.utcoffset()), L._secs(a1.utcoffset()), nm_, tzoff))
             except OverflowError:
                 out[i] = "err OverflowError"     # the zone object's own overflow at the edge of the calendar
                 continue
@@ -181,17 +188,94 @@ def sentence(rng, text, parts=None):
     return (pre + " " if pre else "") + text + (" " + post if post else "")
 
 
+TZ_NAMED = ["UTC+3", "GMT-2", "UTC0", "XXX0UTC,M3.5.0,M10.5.0"]     # zones CALLED UTC / GMT by a POSIX string, at any offset
+
+
+SENTENCE_WORDS = sorted({w for f in G.FILLER for w in f.split()} | {
+    "Today", "meeting", "approximately", "sharp", "exactly", "hello", "World", "Zulu", "x", "ok", "inf", "nan", "infinity", "EST", "at",
+    "on", "T", "am", "Monday", "of", "and", "Sept", "h", "UTC", "z", "a", "pm", "around", "room", "Date", "ABCDEF", "mon", "sec"})
+
+
+def oracle_sentences(ctx, rng, year_now):
+    """'Fuzzy parsing of a sentence containing one date returns that date; fuzzy_with_tokens returns the same datetime together
+    with the skipped text in order' — on the class the sentence theorems are about (C15.sentence_templates_have_theorems): filler
+    words the LEAN predicate PM.fillerWord accepts (parser.filler op), each followed by a space; one rendering of a template in
+    PT.sentenceTemplates (parser.sentences op); filler words, each after a space.  The Lean text of every sentence
+    (parser.sentence op) is compared with the oracle's; then on the implementation: fuzzy = fuzzy_with_tokens[0] = the strict parse
+    of the rendering alone, and the tokens, read one after the other, start with the words in front, end with the words behind and
+    are a subsequence of the sentence."""
+    ids = [i for i in ctx.driver(["parser.sentences"])[0][3:].split(",") if i in G.T]
+    flags = ctx.driver(["parser.filler " + ";".join(L.cps(w) for w in SENTENCE_WORDS)])[0][3:]
+    fill = [w for w, f in zip(SENTENCE_WORDS, flags) if f == "1"]
+    ctx.hist["sentence_templates"] = ", ".join(ids)
+    ctx.hist["sentence_filler_words_accepted"] = " ".join(fill)
+    ctx.hist["sentence_filler_words_rejected_by_the_class"] = " ".join(w for w, f in zip(SENTENCE_WORDS, flags) if f != "1")
+    if not ids or len(fill) < 5:
+        ctx.mismatch("parser.sentences", "sentence class", "ids=%d filler=%d" % (len(ids), len(fill)), "expected 17 ids and a non-trivial class")
+        return
+    cases = []
+    for _ in range(ctx.budget(700, 7000)):
+        t = G.T[rng.choice(ids)]
+        d = G.boundary_dt(rng, rng.randint(year_now - 50, year_now + 49) if t['yy'] else None)
+        if t['ydec'] and d.year < 100:
+            continue                                    # the month-name theorems need year >= 100 (D-C02-monthname-century)
+        lead = [rng.choice(fill) for _ in range(rng.choice([0, 0, 1, 2, 3, 5]))]
+        trail = [rng.choice(fill) for _ in range(rng.choice([0, 1, 1, 2, 4]))]
+        cases.append((t, d, lead, trail))
+    lean = ctx.driver(["parser.sentence %s [%d,%d,%d,%d,%d,%d,%d] %s %s" % (
+        t['name'], d.year, d.month, d.day, d.hour, d.minute, d.second, d.microsecond,
+        ";".join(L.cps(w) for w in lead) or "-", ";".join(L.cps(w) for w in trail) or "-") for t, d, lead, trail in cases])
+    for (t, d, lead, trail), lt in zip(cases, lean):
+        inner = G.render(t, d, None)
+        front = "".join(w + " " for w in lead); back = "".join(" " + w for w in trail)
+        text = front + inner + back
+        if lt != "ok " + L.cps(text):
+            ctx.mismatch("parser.sentence", {"template": t['name'], "datetime": d.isoformat(), "lead": lead, "trail": trail}, L.cps(text), lt)
+            continue
+        dflt = rng.choice(G.DEFAULTS)
+        kw = dict(default=dflt, dayfirst=t['flags'].get('dayfirst'), yearfirst=t['flags'].get('yearfirst'))
+        strict, _, _ = L.run_impl(L.Call(inner, **kw))
+        fz, _, _ = L.run_impl(L.Call(text, fuzzy=True, **kw))
+        ft, _, rt = L.run_impl(L.Call(text, fwt=True, **kw), raw=True)
+        ctx.case(("sentence", t['name'], text, dflt.isoformat()), nontrivial=strict.startswith("ok "))
+        ctx.count("sentence_cases")
+        ctx.count("sentence_lead_%d_trail_%d" % (min(len(lead), 3), min(len(trail), 3)))
+        case = L.Call(text, fuzzy=True, **kw).describe()
+        case.update({"template": t['name'], "date": inner, "lead": lead, "trail": trail})
+        if not strict.startswith("ok "):
+            ctx.violation("the rendering alone must parse (C02)", case, {"strict": strict})
+            continue
+        if fz != strict:
+            ctx.violation("fuzzy parse of a sentence containing one date must return that date", case, {"date": inner, "strict": strict, "fuzzy": fz})
+        if not ft.startswith("ok ") or ft.split(" | ")[:2] != strict.split(" | ")[:2]:
+            ctx.violation("fuzzy_with_tokens must return the same datetime as the date alone", case, {"strict": strict, "with_tokens": ft})
+            continue
+        joined = "".join(rt[1])
+        pos, sub = 0, True
+        for ch in joined:
+            j = text.find(ch, pos)
+            if j < 0:
+                sub = False
+                break
+            pos = j + 1
+        if not (joined.startswith(front) and joined.endswith(back) and sub):
+            ctx.violation("fuzzy_with_tokens: the skipped text (every filler word, in order) must come back", case,
+                          {"tokens": list(rt[1]), "front": front, "back": back})
+
+
 def correspondence(ctx):
     basecorr.run(ctx)
     rng = ctx.subrng("corr")
     prev = L.set_tz("UTC")
     try:
-        envs = G.TZ_ENVS if ctx.budget(0, 1) else ["UTC", "America/New_York", "Europe/London", "Australia/Lord_Howe"]
+        envs = (G.TZ_ENVS + TZ_NAMED) if ctx.budget(0, 1) else ["UTC", "America/New_York", "Europe/London", "Australia/Lord_Howe",
+                                                                  "UTC+3", "XXX0UTC,M3.5.0,M10.5.0"]
         for tzenv in envs:
             L.set_tz(tzenv)
-            calls = [c for c, _ in gen_calls(ctx, rng, ctx.budget(2500, 20000))]
+            named = tzenv in TZ_NAMED               # a zone merely CALLED UTC / GMT: the local_zero_offset rows of localFinal
+            calls = [c for c, _ in gen_calls(ctx, rng, ctx.budget(800 if named else 2500, 6000 if named else 20000))]
             # fuzzy variants and free-form zone texts
-            for _ in range(ctx.budget(1500, 12000)):
+            for _ in range(ctx.budget(400 if named else 1500, 3000 if named else 12000)):
                 text, _, _ = partial(rng)
                 t = sentence(rng, text + rng.choice(G.TZ_TEXT))
                 c = G.options(rng, t, allow_custom=rng.random() < 0.2)
@@ -207,8 +291,6 @@ def correspondence(ctx):
     finally:
         L.set_tz(prev)
 
-
-TZ_NAMED = ["UTC+3", "GMT-2", "UTC0", "XXX0UTC,M3.5.0,M10.5.0"]     # zones CALLED UTC / GMT by a POSIX string, at any offset
 
 
 def two_markers(case):
@@ -247,7 +329,6 @@ def oracle(ctx):
     try:
         envs = (G.TZ_ENVS + TZ_NAMED) if ctx.budget(0, 1) else ["UTC", "America/New_York", "Europe/London", "Asia/Kolkata",
                                                                   "Australia/Lord_Howe", "UTC+3", "GMT-2", "UTC0"]
-        known_counts = {}
         for tzenv in envs:
             L.set_tz(tzenv)
             pairs = gen_calls(ctx, rng, ctx.budget(1500 if tzenv in TZ_NAMED else 3000, 30000))
@@ -284,51 +365,48 @@ def oracle(ctx):
                 if ans.startswith("ok ") and isinstance(exp, datetime.datetime):
                     items.append((c, zp, exp, ans, raw))
             # ---- (c) zone cascade against the Lean cascade
-            exp_z = tzcascade_requests(ctx, [(c.tz if not c.ignoretz else L.TzSpec(), zp[0] if not c.ignoretz else None,
-                                              zp[1] if not c.ignoretz else None, exp) for c, zp, exp, _, _ in items])
+            exp_z = tzcascade_requests(ctx, [(c.tz, zp[0], zp[1], exp, c.ignoretz) for c, zp, exp, _, _ in items])
             for (c, zp, exp, ans, raw), ez in zip(items, exp_z):
                 got = "ok " + ans.split(" | ")[1]
                 aware_dflt = c.default.tzinfo is not None
-                if aware_dflt:                      # where the cascade applies no zone the default's tzinfo stays
-                    ez = "ok dflt" if ez == "ok naive" else (ez + " dflt" if ez.startswith("ok warn ") else ez)
+                if not aware_dflt and ez == "ok dflt":      # the default's tzinfo is kept: None for a naive default
+                    ez = "ok naive"
                 if ez == "ok none":
                     ez = "ok naive"
                 ctx.evaluations += 1
                 ctx.count("zone_" + ez.split(" ")[1] if ez.startswith("ok ") else "zone_err")
+                if aware_dflt:
+                    ctx.count("aware_default_calls")
                 if ez.startswith("err "):
                     continue        # tzoffset overflow etc.: the call raised before; not reached here
                 if got != ez:
                     ctx.violation("zone resolution order: expected %s" % ez, c.describe(), {"impl": ans, "meaning": zp})
-                elif aware_dflt and (got.startswith("ok warn ") or (c.ignoretz and got == "ok dflt")):
-                    # the property: "an unresolvable abbreviation yields a NAIVE result with a warning", "ignoretz returns the
-                    # same wall time WITHOUT a zone" — with an aware default the result keeps the default's zone instead
-                    case = c.describe()
-                    case["known_class"] = "D-C15-aware-default-kept" if raw.tzinfo is c.default.tzinfo else None
-                    ctx.count("known_class_D-C15-aware-default-kept_hits")
-                    known_counts["ad"] = known_counts.get("ad", 0) + 1
-                    if known_counts["ad"] <= 25 or case["known_class"] is None:
-                        ctx.violation("ignoretz / an unknown abbreviation must give a naive datetime", case,
-                                      {"impl": got, "model": ez, "meaning": zp})
+                # the property, stated directly (regression stream of the repaired D-C15-aware-default-kept): "an unresolvable
+                # abbreviation yields a NAIVE result with a warning", "ignoretz returns the same wall time WITHOUT a zone" —
+                # for EVERY default, also an aware one
+                if (c.ignoretz or got.startswith("ok warn ")) and raw.tzinfo is not None:
+                    ctx.violation("ignoretz / an unknown abbreviation must give a naive datetime", c.describe(),
+                                  {"impl": got, "model": ez, "meaning": zp,
+                                   "tzinfo_is_the_default's": raw.tzinfo is c.default.tzinfo})
+                # a text without zone information keeps the default's tzinfo OBJECT
+                if aware_dflt and not c.ignoretz and zp == (None, None) and c.tz.kind == "none" and raw.tzinfo is not c.default.tzinfo:
+                    ctx.violation("a text without zone information must keep the tzinfo of default=", c.describe(), {"impl": got})
                 # documented consequences, stated directly
                 if raw.tzinfo is not None and zp[1] is not None and c.tz.kind == "none" and not c.ignoretz:
                     name_is_local = zp[0] is not None and zp[0] in __import__("time").tzname
                     if not name_is_local and raw.utcoffset() != datetime.timedelta(seconds=zp[1]):
                         ctx.violation("numeric offset / GMT+h meaning", c.describe(), {"impl": ans, "meaning": zp})
                     # "UTC designators and zero offsets as UTC": whatever the process zone is called, the result must be at
-                    # offset zero.  Where the process zone is CALLED like the designator but is elsewhere it is not: known
-                    # finding D-C15-local-zone-named-utc (here impl == model already holds: got == ez was tested above)
-                    if zp[1] == 0 and raw.utcoffset() != datetime.timedelta(0):
-                        case = c.describe()
-                        exact = (name_is_local and isinstance(raw.tzinfo, tz.tzlocal)
-                                 and raw.utcoffset() == exp.replace(tzinfo=tz.tzlocal(), fold=raw.fold).utcoffset())
-                        case["known_class"] = "D-C15-local-zone-named-utc" if exact else None
-                        if exact:
-                            ctx.count("known_class_D-C15-local-zone-named-utc_hits")
-                            known_counts["lz"] = known_counts.get("lz", 0) + 1
-                            if known_counts["lz"] > 25:
-                                continue
-                        ctx.violation("a UTC designator / zero offset must give offset zero", case,
-                                      {"impl": "ok " + ans.split(" | ")[1], "model": ez, "meaning": zp})
+                    # offset zero (regression stream of the repaired D-C15-local-zone-named-utc: TZ_NAMED calls zones UTC / GMT
+                    # at other offsets)
+                    if zp[1] == 0:
+                        ctx.count("zero_offset_texts" + ("_local_name" if name_is_local else ""))
+                        if raw.utcoffset() != datetime.timedelta(0):
+                            ctx.violation("a UTC designator / zero offset must give offset zero", c.describe(),
+                                          {"impl": "ok " + ans.split(" | ")[1], "model": ez, "meaning": zp,
+                                           "utcoffset": str(raw.utcoffset())})
+                        elif name_is_local and isinstance(raw.tzinfo, tz.tzlocal):
+                            ctx.count("zero_offset_texts_kept_tzlocal")       # the local zone IS at offset zero there
             # ---- (d) ignoretz: same wall time, no zone
             for (c, meta), (ans, raw) in zip(pairs, answers):
                 if rng.random() < 0.3 and not c.ignoretz:
@@ -337,23 +415,10 @@ def oracle(ctx):
                     ctx.evaluations += 1
                     ctx.count("ignoretz_pairs")
                     if ans.startswith("ok "):
-                        if c.default.tzinfo is not None:
-                            # aware default: the wall time must be the same; the zone clause fails in exactly one way
-                            # (the default's tzinfo is kept: D-C15-aware-default-kept, model = implementation)
-                            m2 = L.model_answers(ctx, [c2])[0]
-                            if not (a2.startswith("ok ") and r2.replace(tzinfo=None) == raw.replace(tzinfo=None, fold=0)) or a2 != m2:
-                                ctx.violation("ignoretz must return the same wall time without a zone", c.describe(),
-                                              {"impl": ans, "ignoretz": a2, "model_ignoretz": m2})
-                            elif r2.tzinfo is not None:
-                                case = c2.describe()
-                                case["known_class"] = "D-C15-aware-default-kept" if r2.tzinfo is c.default.tzinfo else None
-                                ctx.count("known_class_D-C15-aware-default-kept_hits")
-                                known_counts["ad"] = known_counts.get("ad", 0) + 1
-                                if known_counts["ad"] <= 25 or case["known_class"] is None:
-                                    ctx.violation("ignoretz / an unknown abbreviation must give a naive datetime", case,
-                                                  {"impl": "ok " + a2.split(" | ")[1], "model": "ok " + m2.split(" | ")[1]})
-                        elif not (a2.startswith("ok ") and r2.tzinfo is None and r2 == raw.replace(tzinfo=None, fold=0)):
-                            ctx.violation("ignoretz must return the same wall time without a zone", c.describe(), {"impl": ans, "ignoretz": a2})
+                        # for EVERY default (naive or aware): same wall time, tzinfo None
+                        if not (a2.startswith("ok ") and r2.tzinfo is None and r2 == raw.replace(tzinfo=None, fold=0)):
+                            ctx.violation("ignoretz must return the same wall time without a zone", c.describe(),
+                                          {"impl": ans, "ignoretz": a2, "default_aware": c.default.tzinfo is not None})
                     elif ans == "err ParserError" and a2 != ans:
                         # unless the failure came from the tzinfos VALUE (malformed TZ string / raising callable), which
                         # ignoretz never consults — the model must say exactly the same in both calls
@@ -470,6 +535,12 @@ def oracle(ctx):
         ctx.sample({"text": "Feb (default 2001-01-31)", "impl": L.run_impl(L.Call("Feb", default=datetime.datetime(2001, 1, 31)))[0]})
         ctx.sample({"text": "10:00 GMT+3", "impl": L.run_impl(L.Call("10:00 GMT+3"))[0]})
         ctx.sample({"text": "Friday (default 2003-09-25, a Thursday)", "impl": L.run_impl(L.Call("Friday"))[0]})
+        # a sentence containing one date, on the class of the sentence theorems
+        L.set_tz("UTC")
+        oracle_sentences(ctx, ctx.subrng("sentences"), L.model_pivot(P._parser.DEFAULTPARSER.info)[0])
+        # the two-digit-year pivot the model is given comes from the process clock (review3b F8)
+        L.set_tz("UTC")
+        L.pivot_oracle(ctx)
     finally:
         L.set_tz(prev)
 
@@ -479,10 +550,6 @@ KNOWN = {
     "D-C15-second-ampm-marker": lambda v: v["what"].startswith("text accepted without fuzzy")
     and v["case"].get("known_class") == "D-C15-second-ampm-marker"
     and v["detail"].get("strict") == v["detail"].get("model_strict") and v["detail"].get("fuzzy") == v["detail"].get("model_fuzzy"),
-    "D-C15-aware-default-kept": lambda v: v["case"].get("known_class") == "D-C15-aware-default-kept"
-    and v["detail"].get("impl") is not None and v["detail"].get("impl") == v["detail"].get("model"),
-    "D-C15-local-zone-named-utc": lambda v: v["case"].get("known_class") == "D-C15-local-zone-named-utc"
-    and v["detail"].get("impl") is not None and v["detail"].get("impl") == v["detail"].get("model"),
 }
 
 
